@@ -907,6 +907,27 @@ def rule_P4_sampler(ctx, rid='P4', rid6='P6'):
                    'attribute %r (%s write in %s) changes in every batch and is %s by the '
                    'incremental update' % (a, kind, via, 're-written' if ok else
                                            'NOT re-written'))
+    # -- (2b) objects stored in persisted lists that have their own incremental update
+    for e in W:
+        if e.kind != 'group' or not e.attr:
+            continue
+        for d in sorted(res.attr_types.get(('Sampler', e.attr), ())):
+            dc = prog.classes[d]
+            if 'update' not in dc.methods or 'write' not in dc.methods:
+                continue
+            dm = mutated_attrs(prog, [add_samples], d)
+            dp = {x.attr for x in writer_table(dc.methods['write']) if x.attr}
+            hit = sorted(set(dm) & dp)
+            if not hit:
+                continue
+            ok = any(u.kind == 'group' and (u.attr == e.attr or
+                     getattr(u, 'derived_from', None) == e.attr) for u in U)
+            ctx.ob(rid, 'Sampler.write_shell_update:nested(%s:%s)' % (e.attr, d), ok,
+                   ufun.where(), 'every batch modifies %s of the %s stored in self.%s and its '
+                   'update() is %s by the incremental update' % (
+                       hit, d, e.attr, 'called' if ok else 'NOT called'))
+    for u in U:
+        _index_agreement(ctx, rid, 'Sampler', u)
     # -- (3) the generator
     draws = res.trans(add_samples).draws
     if draws and 'rng' in persisted:
